@@ -148,7 +148,7 @@ fn check_sorted_lattice(mut vals: Vec<PV>, obs: &mut Obs) -> CaseResult {
 
 pub fn run(ctx: &mut RunCtx) {
     ctx.assume("value order per kind: integers/datetimes numeric, booleans false<true, strings by code point (UTF-8 byte order), byte strings lexicographic, floats IEEE-754 with +0 = -0; NaN excluded as the property states");
-    let n = ctx.tier.pick(15_000_000, 60_000_000);
+    let n = ctx.tier.pick(15_000_000, 300_000_000);
     ctx.explore(
         "triples",
         "triples of same-kind values generated with boundary weighting and constructed relations (equal, adjacent, prefix, sign flip); all 6 ordered pairs checked; non-trivial = at least two distinct values in the triple",
